@@ -90,6 +90,7 @@ type Normalizer struct {
 	loopVars map[*types.Var]bool // variables assigned inside a loop: never inlined
 	// Imperative is set when the function being normalised contains loops or non-rebinding assignments.
 	Imperative bool
+	depth      int
 }
 
 func NewNormalizer() *Normalizer {
@@ -431,6 +432,14 @@ func (n *Normalizer) terms(ts []Term, e *env) []Term {
 }
 
 func (n *Normalizer) term(t Term, e *env) Term {
+	// a runaway expansion (e.g. inlining that does not terminate) must end as an undecidable node, not as a
+	// stack overflow of the checker
+	n.depth++
+	defer func() { n.depth-- }()
+	if n.depth > 4000 {
+		n.Imperative = true
+		return &Opaque{Why: "normal form too deep (expansion does not terminate?)"}
+	}
 	switch x := t.(type) {
 	case nil:
 		return nil
